@@ -1,17 +1,15 @@
 #!/bin/sh
 # lib/mutant.sh <patch.diff> <check-id>... : run checks against a scratch copy of /repo with a patch applied.
-# Evidence/replays written by such runs are scratch, too (they are restored afterwards).
+# Such runs use a private Coq tree, harness, work and evidence directory under /tmp (lib/verif.py), removed afterwards.
 set -e
 patch=$(readlink -f "$1"); shift
 tmp=$(mktemp -d /tmp/mutant_repo.XXXXXX)
 cp -r /repo/. "$tmp"/
 (cd "$tmp" && git apply "$patch")
 cd /verif
-mkdir -p /tmp/mutant_evidence_backup && cp -r evidence/. /tmp/mutant_evidence_backup/ 2>/dev/null || true
 for id in "$@"; do
   echo "== $id on mutant $(basename $(dirname $patch))/$(basename $patch)"
   VERIF_REPO_DIR="$tmp" ./check "$id" 2>&1 | grep -E "^(VIOLATION|KNOWN-FINDING|C[0-9]+ (ok|FAIL))" || true
 done
-cp -r /tmp/mutant_evidence_backup/. evidence/ 2>/dev/null || true
 h=$(python3 -c "import hashlib,sys;print(hashlib.sha1(sys.argv[1].encode()).hexdigest()[:10])" "$tmp")
-rm -rf "$tmp" /tmp/verif_harness_$h /tmp/verif_work_$h /tmp/mutant_evidence_backup
+rm -rf "$tmp" /tmp/verif_harness_$h /tmp/verif_work_$h /tmp/verif_coq_$h
